@@ -233,6 +233,9 @@ pub struct Surface {
     pub empty_style: u8,
     /// vary quotes / blanks inside tags / character references
     pub fancy: bool,
+    /// what precedes the document: 0 nothing, 1 blanks, 2 a UTF-8 byte order mark, 3 BOM + blanks
+    #[serde(default)]
+    pub lead: u8,
 }
 
 impl Surface {
@@ -241,6 +244,7 @@ impl Surface {
             seed: 0,
             empty_style: 0,
             fancy: false,
+            lead: 0,
         }
     }
     pub fn seeded(seed: u64) -> Surface {
@@ -248,7 +252,18 @@ impl Surface {
             seed,
             empty_style: 2,
             fancy: true,
+            lead: 0,
         }
+    }
+    /// seeded surface that may also put blanks / a byte order mark in front of the document
+    pub fn seeded_with_lead(seed: u64) -> Surface {
+        let lead = match seed % 10 {
+            0 | 1 => 1,
+            2 => 2,
+            3 => 3,
+            _ => 0,
+        };
+        Surface { lead, ..Surface::seeded(seed) }
     }
 }
 
@@ -377,7 +392,13 @@ pub fn write_elem(e: &Elem, s: &Surface, r: &mut Rng, out: &mut String) {
 pub fn write_doc(d: &Doc, s: &Surface) -> String {
     let mut r = Rng::new(s.seed);
     let mut out = String::new();
-    if d.decl {
+    if s.lead >= 2 {
+        out.push('\u{FEFF}');
+    }
+    if s.lead == 1 || s.lead == 3 {
+        out.push_str(*r.pick(&[" ", "\n", "\n    ", "\t\r\n", "      "]));
+    }
+    if d.decl && s.lead != 1 && s.lead != 3 {
         out.push_str("<?xml version=\"1.0\" encoding=\"UTF-8\"?>");
         if s.fancy && r.chance(1, 2) {
             out.push('\n');
@@ -478,7 +499,7 @@ const SYNTHETIC: &[&str] = &[
     "n0", "n1", "n2", "n3", "n4", "n5", "n6", "n7", "n8", "n9", "n10", "n11", "n12", "n13", "n14", "n15", "n16", "n17", "n18", "n19",
     "n20", "n21", "n22", "n23", "n24", "n25", "n26", "n27", "n28", "n29", "n30", "n31", "n32", "n33", "n34", "n35", "n36", "n37", "n38", "n39",
     "n40", "n41", "n42", "n43", "n44", "n45", "n46", "n47", "n48", "n49", "n50", "n51", "n52", "n53", "n54", "n55", "n56", "n57", "n58", "n59",
-    "n60", "n61", "n62", "n63", "n64", "n65", "n66", "n67", "n68", "n69", "n255", "n256", "n257", "n65535", "n65536",
+    "n1a", "n1_note", "n2b", "line2", "line10", "line1a", "item2", "item10", "item1x", "n60", "n61", "n62", "n63", "n64", "n65", "n66", "n67", "n68", "n69", "n255", "n256", "n257", "n65535", "n65536",
     "aVeryLongElementNameThatGoesOnAndOnAndOnAndOnAndOnAndOnAndOnAndOnAndOnAndOnAndOnAndOnAndOnAndOnAndOnAndOnAndOnAndOnAndOnAndOn",
     "another_very_long_name_with_underscores_that_is_longer_than_sixty_four_bytes_for_sure_and_then_some_more_to_pass_128_bytes_in_total_length_ok",
     "x-y-z-x-y-z-x-y-z-x-y-z-x-y-z-x-y-z-x-y-z-x-y-z-x-y-z-x-y-z-x-y-z-x-y-z-x-y-z-x-y-z-x-y-z-x-y-z-x-y-z-x-y-z-x-y-z-x-y-z-x-y-z-x-y-z-x-y-z-x-y-z-x-y-z-x-y-z-x-y-z-x-y-z-x-y-z-x-y-z-x-y-z-x-y-z-x-y-z-x-y-z-x-y-z-x-y-z-x-y-z-x-y-z-x-y-z",
